@@ -386,6 +386,24 @@ func (x *Exec) orXor(s *State, op token.Token, a, b Val, t types.Type, pos token
 	if n, ok := litOf(a); ok && n.Sign() == 0 {
 		return b
 	}
+	if op == token.XOR {
+		// v ^ 1 on a non-negative value flips the lowest bit: v + 1 - 2*(v mod 2)
+		flip := func(v, one Val) (Val, bool) {
+			n, ok := litOf(one)
+			if !ok || n.Cmp(big1) != 0 || v.Lo == nil || v.Lo.Sign() < 0 || v.Hi == nil {
+				return Val{}, false
+			}
+			r := Val{K: KInt, T: t, S: mkSub(mkAdd(v.S, "1"), mkMul("2", mkMod(v.S, "2")))}
+			r.Lo, r.Hi = big0, new(big.Int).Add(v.Hi, big1)
+			return r, true
+		}
+		if v, ok := flip(a, b); ok {
+			return v
+		}
+		if v, ok := flip(b, a); ok {
+			return v
+		}
+	}
 	name := "bit.or"
 	if op == token.XOR {
 		name = "bit.xor"
